@@ -544,10 +544,33 @@ def rule_order(rep: Report, rid="C03.order") -> None:
     for br in b.branches.values():
         # only what reaches the returned value matters: a reversed() that merely drives a scan reorders nothing
         seen: set = set()
+
+        def rev_chain(t):
+            """reversed(...) terms nested directly in one another (through list copies and take/dropwhile): [outer, ..., inner]"""
+            out = []
+            cur = t
+            while True:
+                if cur[0] == "call" and cur[1] == "reversed" and len(cur[2]) == 1:
+                    out.append(cur)
+                    cur = cur[2][0]
+                elif cur[0] == "call" and cur[1] in ("itertools.dropwhile", "itertools.takewhile", "list", "tuple", "iter") and cur[2]:
+                    cur = cur[2][-1]
+                elif cur[0] == "ref" and isinstance(I.obj(cur), HList) and len(I.obj(cur).segs) == 1 and I.obj(cur).segs[0][0] == "s":
+                    cur = I.obj(cur).segs[0][1]
+                else:
+                    return out
         for v, _line, _gs in br.returns:
-            for t in b.deep_terms(v, seen):
-                if t[0] == "call" and t[1] in ("sorted", "reversed", "set", "frozenset", ".sort", ".reverse"):
+            terms = b.deep_terms(v, seen)
+            covered = set()
+            for t in terms:
+                if t[0] == "call" and t[1] == "reversed":
+                    for inner in rev_chain(t)[1:]:
+                        covered.add(inner)
+            for t in terms:
+                if t[0] == "call" and t[1] in ("sorted", "set", "frozenset", ".sort", ".reverse"):
                     bad.append((br.rule, fmt(t, I)))
+                if t[0] == "call" and t[1] == "reversed" and t not in covered and len(rev_chain(t)) % 2 == 1:
+                    bad.append((br.rule, fmt(t, I)))        # an even number of reversals restores the order
         for n, ctx in nf.iter_nodes(br.tree):
             if n[0] == "mutate" and n[2] in ("sort", "reverse", "insert"):
                 bad.append((br.rule, f"{n[2]} at line {n[4]}"))
@@ -584,11 +607,48 @@ def rule_desc(rep: Report, rid="C03.desc") -> None:
         return
     # the token list: a fresh copy of the Other tokens from which only a trailing run of blank lines is removed
     cut = None
-    if src_list[0] == "slice" and src_list[2] == NONE and src_list[4] == NONE:
+    dropped_by = None       # predicate of forms C / D (library spelling of 'the trailing run satisfying P')
+    other = items(b.node, "Other")
+
+    def is_other_tokens(t):
+        if b.c(t) == other:
+            return True
+        o_ = I.obj(t) if isinstance(t, tuple) and t and t[0] == "ref" else None
+        return isinstance(o_, HList) and [b.c(sg[1]) if sg[0] == "s" else None for sg in o_.segs] == [other]
+
+    def trailing_run(t):
+        """P when t is takewhile/dropwhile(P, reversed(<the Other tokens>))"""
+        if t[0] == "call" and t[1] in ("itertools.takewhile", "itertools.dropwhile") and len(t[2]) == 2 \
+                and t[2][1][0] == "call" and t[2][1][1] == "reversed" and is_other_tokens(t[2][1][2][0]):
+            return t[1].rsplit(".", 1)[1], t[2][0], t[2][1][2][0]
+        return None
+
+    if src_list[0] == "call" and src_list[1] == "reversed" and len(src_list[2]) == 1:
+        # form C: reversed(list(dropwhile(P, reversed(tokens))))
+        inner = src_list[2][0]
+        o_ = I.obj(inner)
+        tr = trailing_run(o_.segs[0][1]) if isinstance(o_, HList) and len(o_.segs) == 1 and o_.segs[0][0] == "s" else trailing_run(inner)
+        if tr and tr[0] == "dropwhile":
+            dropped_by, src_list = tr[1], tr[2]
+    elif src_list[0] == "slice" and src_list[2] == NONE and src_list[4] == NONE and src_list[3][0] == "binop" and src_list[3][1] == "Sub" \
+            and src_list[3][2] == ("call", "len", (src_list[1],), ()):
+        # form D: tokens[:len(tokens) - <number of trailing tokens satisfying P>]
+        cnt = src_list[3][3]
+        run = None
+        if cnt[0] == "call" and cnt[1] in ("sum", "len") and len(cnt[2]) == 1:
+            arg = cnt[2][0]
+            sg = nf.flatten_segs(I, nf.value_segs(I, arg, b.tree), b.tree) if arg[0] == "ref" else []
+            if cnt[1] == "sum" and len(sg) == 1 and sg[0][0] == "loop" and list(sg[0][2]) == [("e", const(1))] and not I.loops[sg[0][1]].get("conds"):
+                run = trailing_run(I.loops[sg[0][1]].get("iter"))
+            elif cnt[1] == "len" and len(sg) == 1 and sg[0][0] == "s":
+                run = trailing_run(sg[0][1])
+        if run and run[0] == "takewhile" and run[2] == src_list[1]:
+            dropped_by, src_list = run[1], src_list[1]
+    if dropped_by is None and src_list[0] == "slice" and src_list[2] == NONE and src_list[4] == NONE:
         cut = src_list[3]           # form B: tokens[:keep]
         src_list = src_list[1]
     o = I.obj(src_list)
-    base_ok = isinstance(o, HList) and [b.c(s[1]) if s[0] == "s" else None for s in o.segs] == [items(b.node, "Other")]
+    base_ok = is_other_tokens(src_list)
     rep.ob(rid, "the lines are the node's #Other tokens (comments were diverted by build)", base_ok, **_kw(b, br.line),
            expected="list(node.get_tokens('Other'))", found=fmt(src_list, I))
 
@@ -613,7 +673,18 @@ def rule_desc(rep: Report, rid="C03.desc") -> None:
     trim_ok = False
     pred_kind = None
     detail = None
-    if cut is None and len(muts) == 1 and muts[0][0][2] == "pop" and muts[0][0][3] == () and len(loops) == 1:
+    if dropped_by is not None:
+        # forms C / D: the predicate applied to a token must say 'blank'
+        from ..absint import State
+        probe = ("param", "token")
+        try:
+            pv = I.apply(State(), dropped_by, [probe], {}, None, [])
+        except Exception:
+            pv = None
+        pred_kind = blankness(pv, ("attr", probe, "matched_text")) if pv is not None else None
+        trim_ok = pred_kind == "blank" and not [m_ for m_ in muts if not getattr(I.obj(m_[0][1]), "materialised", False)]
+        detail = f"trailing run dropped by {fmt(dropped_by, I)[:80]}"
+    elif cut is None and len(muts) == 1 and muts[0][0][2] == "pop" and muts[0][0][3] == () and len(loops) == 1:
         # form A: while tokens and <blank(tokens[-1].matched_text)>: tokens.pop()
         lid = loops[0][1]
         in_loop = nf.loops_in_ctx(muts[0][1]) == [lid] and not nf.guards_in_ctx(muts[0][1])
@@ -733,8 +804,8 @@ def rule_docstring_ast(rep: Report, rid="C13.ast") -> None:
     rep.eq(rid, "docString.delimiter = the opening delimiter", fmt(("attr", sep, "matched_keyword"), I), fmt(get("delimiter"), I) if get("delimiter") else None, **kw)
     rep.eq(rid, "docString.location = the opening delimiter's location", fmt(("attr", sep, "location"), I), fmt(get("location"), I) if get("location") else None, **kw)
     rep.ob(rid, "the doc string branch performs no mutation (nothing is trimmed or dropped)",
-           not [n for n, _ in nf.iter_nodes(br.tree) if n[0] == "mutate"], **_kw(b, br.line), expected="no pop/remove",
-           found=[(n[2], n[4]) for n, _ in nf.iter_nodes(br.tree) if n[0] == "mutate"])
+           not [n for n, _ in nf.iter_nodes(br.tree) if n[0] == "mutate" and not getattr(I.obj(n[1]), "materialised", False)], **_kw(b, br.line),
+           expected="no pop/remove", found=[(n[2], n[4]) for n, _ in nf.iter_nodes(br.tree) if n[0] == "mutate" and not getattr(I.obj(n[1]), "materialised", False)])
 
 
 def _rows_list(b: BuilderNF, br: Branch):
